@@ -4,6 +4,8 @@
 -/
 import SchedVerif.Lemmas.Strip
 import SchedVerif.Props.C06
+import SchedVerif.Lemmas.AsyncBudget
+import SchedVerif.Props.C17
 namespace SV
 
 /-- **no propagation**: whatever callbacks raise, `exec_jobs` returns a count -/
@@ -139,5 +141,27 @@ example : SameHist
     [Op.sched { call := .cyclic, timings := [.td 10], isList := false } 100, .exec 200 true [0] [0] []]
     [Op.sched { call := .cyclic, timings := [.td 10], isList := false } 100, .exec 200 true [0] [] []] :=
   .cons (.other _) (.cons (.exec _ _ _ _ _ _) .nil)
+
+
+/-! ### the asyncio front end ("both front ends") -/
+
+/-- **asyncio: failures are a subset of the runs**, after every history -/
+theorem C10.aio_failed_le_attempts (tz : Option Int) (t0 : Int) (fuel : Nat) (ops : List AOp) (k : Nat) (t : ATask)
+    (ht : (arun fuel { tz := tz, now := t0 } ops).task? k = some t) : t.job.failed ≤ t.job.attempts :=
+  ((BudInv.arun fuel ops _ (BudInv.init tz t0)).ok k t ht).failed
+
+/-- **asyncio: exactly one error record per failed run**, after every history: the number of
+    records on the scheduler's logger equals the number of runs that ended by raising -/
+theorem C10.aio_one_record_each (tz : Option Int) (t0 : Int) (fuel : Nat) (ops : List AOp) :
+    (arun fuel { tz := tz, now := t0 } ops).logs = raiseCount (arun fuel { tz := tz, now := t0 } ops).log :=
+  (BudInv.arun fuel ops _ (BudInv.init tz t0)).logs
+
+/-- **asyncio: a raising coroutine is contained** — the run is counted as an attempt and as a
+    failure, the job is rescheduled by the same rule as after a successful run, and the supervisor
+    goes on (no exception reaches the task: `runActs` is total) -/
+theorem C10.aio_contained (s : AState) (k : Nat) (t : ATask) (ht : s.task? k = some t) (n : Nat) :
+    ∃ t', (runActs (n + 1) s k [] true).task? k = some t' ∧
+      t'.job = (t.job.exec1 true).calcNext (nowDT s.tz s.now) :=
+  C17.reference_is_completion s k t ht true n
 
 end SV
